@@ -492,3 +492,64 @@ Example C16_order_year0_example :
   | _ => False
   end.
 Proof. vm_compute. reflexivity. Qed.
+
+(* ================================================================== the verdict on the model's own text *)
+(* With C16_verdict_on_model_text the verdict of the check on the text the model writes is decided
+   by the three clauses on the erased items.  The full statement would be
+
+     Theorem C16_model_verdict : forall l v sds dl days,
+       parse_directives sds = MOk dl -> postings_syntactic dl -> journal_lex_b dl = true ->
+       commodity_lex_b v = true -> transcode_days l v sds = COk days ->
+       let es := erase_entries v (transcode_entries days []) in
+       Forall (fun x => v_known_shape x = true /\ (v_kind x = k_unopened_val \/ v_kind x = k_closed_val))
+              (beancount_check v es ++ complete_check sds es ++ mtm_check dl v es)
+       (* hence c16_verdict_mtm sds v (transcode days v) is `ok`, or `FAIL:unopened-valuation-account A`
+          (F16), or `FAIL:closed-valuation-account A` (F16b) for a valuation account A = Income:... *)
+
+   Proved below (C16_model_verdict_partial): mtm_check finds nothing (C16_ledger_mark_to_market);
+   beancount_check raises no order, unbalanced or commodity violation, and every violation it
+   raises is a posting violation (kind unopened, use-after-close, unopened-valuation-account or
+   closed-valuation-account) of a posting of a VALUE ADJUSTMENT on an account that is not an asset
+   or liability account -- i.e. on the Income:... account of F16/F16b (C16_chronological,
+   C16_balanced, C16_open_before_use, C16_adjusted_account_open carried to the reader's state:
+   Proofs/BeancountVerdict.v part 4, Proofs/BeancountVerdictOpen.v).
+   Not proved: that check_posting classifies each of these as the known shape (valuation_posting
+   parses "Adjust value of C in account A" back; needs commodities without space and account
+   segments without colon) and that complete_check = [] (every user transaction found, one
+   adjustment per day and description: needs the uniqueness of Valuate's position keys).  Both are
+   evaluated on every case on the binary's output, which is byte-identical to the model's text. *)
+From Knut Require Import Proofs.BeancountVerdictOpen.
+
+Theorem C16_model_verdict_partial : forall l v sds dl days,
+  parse_directives sds = MOk dl -> postings_syntactic dl -> journal_lex_b dl = true ->
+  commodity_lex_b v = true -> transcode_days l v sds = COk days ->
+  let es := erase_entries v (transcode_entries days []) in
+  c16_verdict_mtm sds v (transcode days v) = verdict_of (beancount_check v es ++ complete_check sds es) /\
+  mtm_check dl v es = [] /\
+  Forall (fun x =>
+            (v_kind x = k_unopened \/ v_kind x = k_use_after_close \/ v_kind x = k_unopened_val \/ v_kind x = k_closed_val) /\
+            exists pre t post p,
+              transcode_entries days [] = pre ++ BTxn t :: post /\ adjustment (t_date t) t /\
+              In p (t_postings t) /\ is_AL (p_acc p) = false /\ v_detail x = acc_name (p_acc p))
+         (beancount_check v es).
+Proof.
+  intros l v sds dl days Hp Hsyn Hj Hv H es.
+  pose proof (transcode_mtm_check l v sds dl days Hp Hsyn H) as Hm. fold es in Hm.
+  split; [|split; [exact Hm|exact (beancount_check_model l v sds dl days Hp Hsyn Hj H)]].
+  rewrite (C16_verdict_on_model_text l v sds dl days Hp Hj Hv H). fold es. rewrite Hm, app_nil_r. reflexivity.
+Qed.
+Print Assumptions C16_model_verdict_partial.
+
+(* the hypotheses hold of the witness of C16_valuation_open_refuted, and the one violation is the
+   posting of the adjustment on Income:P *)
+Example C16_model_verdict_example :
+  match parse_directives c16_witness, transcode_days true chf c16_witness with
+  | MOk dl, COk days =>
+    Spec.LedgerSyntax.postings_syntactic_b dl = true /\ journal_lex_b dl = true /\
+    map (fun x => (v_kind x, v_detail x, v_known_shape x))
+        (beancount_check chf (erase_entries chf (transcode_entries days [])))
+    = [(k_unopened_val, [73;110;99;111;109;101;58;80], true)] /\
+    complete_check c16_witness (erase_entries chf (transcode_entries days [])) = []
+  | _, _ => False
+  end.
+Proof. vm_compute. repeat split; reflexivity. Qed.
